@@ -404,7 +404,8 @@ def _build_variants():
         n = st.one_of(st.sampled_from([nmin, nmax, nmax - 1, 0, -1, 1]), st.integers(nmin, nmax), U(24).map(lambda v: nmin + v % (nmax - nmin + 1)))
         if grid:
             return n.map(lambda k: k * step)
-        off = st.tuples(n, st.integers(1, 2**20 - 1)).map(lambda a: (a[0] + a[1] / 2**20) * step)
+        num = st.one_of(st.sampled_from([1, 2**19 - 1, 2**19, 2**19 + 1, 2**20 - 1]), U(20).map(lambda v: v or 1))
+        off = st.tuples(n, num).map(lambda a: (a[0] + a[1] / 2**20) * step)
         return st.one_of(off, off, st.floats(-float(lim), float(lim), exclude_max=True, allow_nan=False))
 
     def flc(name, flco, fields):
@@ -519,6 +520,29 @@ def oracle_build(case):
     _, q = call(v.decode, bitarray(bits))
     if q is None or not isinstance(q, lib(v.cls)):
         raise Fail("decode_returns_object", repr(q), v.cls, klass=v.name)
+    _compare_fields(v, f, p, q, "roundtrip_fields_equal")
+    _, bits2 = call(q.as_bits)
+    if not isinstance(bits2, bitarray) or bits2 != first:
+        raise Fail("roundtrip_bits_equal", _diffpos(bits2, first) if isinstance(bits2, bitarray) else repr(bits2), "identical bits", klass=v.name)
+    # byte interface (CSBK, data header, full LC, UDP/IPv4 header): same statement through as_bytes / from_bytes, where the
+    # PDU is a whole number of octets (the 77-bit full LC travels as 10 octets, from_bytes strips the 3 pad bits)
+    if v.decode_spec[0] == "from_bits" and v.cls in BYTE_CLASSES and (n % 8 == 0 or (v.cls == "FullLinkControl" and n == 77)):
+        _, by = call(p.as_bytes)
+        if not isinstance(by, (bytes, bytearray)) or len(by) != (n + 7) // 8:
+            raise Fail("fixed_length_bytes", repr(by), (n + 7) // 8, klass=v.name)
+        _, qb = call(lib(v.cls).from_bytes, bytes(by))
+        if qb is None or not isinstance(qb, lib(v.cls)):
+            raise Fail("decode_returns_object", repr(qb), v.cls, klass=v.name + ".from_bytes")
+        _compare_fields(v, f, p, qb, "roundtrip_fields_equal_via_bytes")
+        _, by2 = call(qb.as_bytes)
+        if by2 != by:
+            raise Fail("roundtrip_bytes_equal", repr(by2), repr(by), klass=v.name)
+
+
+BYTE_CLASSES = ("CSBK", "DataHeader", "FullLinkControl", "UDPIPv4CompressedHeader")
+
+
+def _compare_fields(v, f, p, q, clause):
     for fl in v.fields:
         if fl.attr is None:
             continue
@@ -530,14 +554,11 @@ def oracle_build(case):
         else:
             exp = expected(fl.kind, given)
         if not hasattr(q, fl.attr):
-            raise Fail("roundtrip_fields_equal", "attribute missing", exp, klass=f"{v.name}.{fl.attr}")
+            raise Fail(clause, "attribute missing", exp, klass=f"{v.name}.{fl.attr}")
         obs = observed(fl.kind, getattr(q, fl.attr))
         same = coord_equal(exp, obs) if fl.kind == "coord" else (obs == exp and type(obs) is type(exp))
         if not same:
-            raise Fail("roundtrip_fields_equal", obs, exp, klass=f"{v.name}.{fl.attr}")
-    _, bits2 = call(q.as_bits)
-    if not isinstance(bits2, bitarray) or bits2 != first:
-        raise Fail("roundtrip_bits_equal", _diffpos(bits2, first) if isinstance(bits2, bitarray) else repr(bits2), "identical bits", klass=v.name)
+            raise Fail(clause, obs, exp, klass=f"{v.name}.{fl.attr}")
 
 
 def _nontrivial_fields(f):
